@@ -53,7 +53,14 @@ pub enum IBatch {
     Skip(usize),
     StepBy(usize),
     ByRefTake(usize),
+    /// two-stage consumption: a head that advances the iterator part of the way (0: `next()` k times;
+    /// 1: `nth(k)`; 2: the adaptor `skip(k)`; 3: `by_ref().take(k)` collected), then a tail that finishes
+    /// it through another method (0: `fold`; 1: `for_each`; 2: `last`; 3: `count`; 4: a plain `for` loop)
+    Chain { head: u8, k: usize, tail: u8 },
 }
+
+const ICHAIN_HEADS: [&str; 4] = ["next_x_k", "nth_k", "skip_k", "by_ref_take_k"];
+const ICHAIN_TAILS: [&str; 5] = ["fold", "for_each", "last", "count", "for_loop"];
 
 const U: f64 = 1.1102230246251565e-16; // 2^-53
 
@@ -336,7 +343,9 @@ fn do_pull<P: Piece>(
 fn run_typed<T>(scn: &IntegScn, cov: &mut Cov, prog: &Progress) -> IRes
 where
     T: Piece + HasIntegral,
-    T::IntegralOf: Piece + Translate,
+    // PartialEq: every integral form of the library derives it; required here so that a change adding that
+    // bound to Piecewise::integral (legal for all concrete uses) still compiles against the harness
+    T::IntegralOf: Piece + Translate + PartialEq,
 {
     let kind = scn.kind;
     let n = scn.ends.len();
@@ -644,6 +653,80 @@ where
                             }
                             (v, None, n)
                         }
+                        IBatch::Chain { head, k, tail } => {
+                            let mut v: Vec<(usize, Segment<T::IntegralOf>)> = Vec::new();
+                            macro_rules! finish {
+                                ($r:expr, $base:expr) => {{
+                                    let r = $r;
+                                    let base: usize = $base;
+                                    let cnt = n - base;
+                                    let seen = v.len();
+                                    match tail {
+                                        0 => {
+                                            let w = r.fold(Vec::new(), |mut a, s| {
+                                                a.push(s);
+                                                a
+                                            });
+                                            v.extend(w.into_iter().enumerate().map(|(j, s)| (base + j, s)));
+                                            (v, None, seen + cnt)
+                                        }
+                                        1 => {
+                                            let mut j = 0;
+                                            r.for_each(|s| {
+                                                v.push((base + j, s));
+                                                j += 1;
+                                            });
+                                            (v, None, seen + cnt)
+                                        }
+                                        2 => {
+                                            if let Some(s) = r.last() {
+                                                v.push((n - 1, s));
+                                            }
+                                            (v, None, seen + usize::from(cnt > 0))
+                                        }
+                                        3 => {
+                                            let c = r.count();
+                                            (v, Some(base + c), seen)
+                                        }
+                                        _ => {
+                                            let mut j = 0;
+                                            for s in r {
+                                                v.push((base + j, s));
+                                                j += 1;
+                                            }
+                                            (v, None, seen + cnt)
+                                        }
+                                    }
+                                }};
+                            }
+                            match head {
+                                0 => {
+                                    let k = k.min(n);
+                                    for j in 0..k {
+                                        if let Some(s) = it.next() {
+                                            v.push((j, s));
+                                        }
+                                    }
+                                    finish!(it, k)
+                                }
+                                1 if n > 0 => {
+                                    let k = k.min(n - 1);
+                                    if let Some(s) = it.nth(k) {
+                                        v.push((k, s));
+                                    }
+                                    finish!(it, k + 1)
+                                }
+                                3 => {
+                                    let k = k.min(n);
+                                    v = it.by_ref().take(k).enumerate().collect();
+                                    finish!(it, k)
+                                }
+                                _ => {
+                                    let k = k.min(n);
+                                    finish!(it.skip(k), k)
+                                }
+                            }
+                        }
                     }
                 }};
             }
@@ -658,6 +741,9 @@ where
             Err(p) => return IRes::Violation("panic".into(), format!("batch {bi}: consuming {name} with {mode:?} panicked: {p}")),
         };
         cov.hit("iterator_batches");
+        if matches!(mode, IBatch::Chain { .. }) {
+            cov.hit("iterator_batches_two_stage_chain");
+        }
         if m.pos.get() != n {
             return IRes::Violation(
                 "laziness".into(),
@@ -1062,7 +1148,8 @@ fn gen_scn(rng: &mut Rng, _tier: Tier) -> IntegScn {
     let nb = *rng.pick(&[0usize, 0, 0, 1, 2]);
     let batches = (0..nb)
         .map(|_| {
-            let mode = match rng.below(8) {
+            let mode = match rng.below(11) {
+                8 | 9 | 10 => IBatch::Chain { head: rng.below(4) as u8, k: rng.usize_in(0, n), tail: rng.below(5) as u8 },
                 0 => IBatch::Fold,
                 1 => IBatch::Count,
                 2 => IBatch::Last,
@@ -1234,7 +1321,7 @@ fn to_json(scn: &IntegScn) -> Value {
         "samples": scn.samples.iter().map(|&(i, t)| json!({"piece": i, "t": fj(t)})).collect::<Vec<_>>(),
         "batches": scn.batches.iter().map(|&(v, m)| json!({
             "iterator": if v { "integral_iter" } else { "integral_iter_ref" },
-            "consume_with": match m { IBatch::Fold => json!("fold"), IBatch::Count => json!("count"), IBatch::Last => json!("last"), IBatch::Nth(k) => json!({"nth": k}), IBatch::Skip(k) => json!({"skip": k}), IBatch::StepBy(k) => json!({"step_by": k}), IBatch::ByRefTake(k) => json!({"by_ref_take": k}) },
+            "consume_with": match m { IBatch::Fold => json!("fold"), IBatch::Count => json!("count"), IBatch::Last => json!("last"), IBatch::Nth(k) => json!({"nth": k}), IBatch::Skip(k) => json!({"skip": k}), IBatch::StepBy(k) => json!({"step_by": k}), IBatch::ByRefTake(k) => json!({"by_ref_take": k}), IBatch::Chain { head, k, tail } => json!({"chain_head": ICHAIN_HEADS[head as usize % 4], "k": k, "chain_tail": ICHAIN_TAILS[tail as usize % 5]}) },
         })).collect::<Vec<_>>(),
     })
 }
@@ -1293,6 +1380,13 @@ fn from_json(v: &Value) -> Result<IntegScn, String> {
                         "last" => IBatch::Last,
                         x => return Err(format!("bad consume_with {x}")),
                     },
+                    Some(o) if o.get("chain_head").is_some() => {
+                        let pos = |key: &str, names: &[&str]| -> Result<u8, String> {
+                            let v = o.get(key).and_then(|v| v.as_str()).ok_or(format!("missing {key}"))?;
+                            names.iter().position(|x| *x == v).map(|i| i as u8).ok_or(format!("bad {key} {v}"))
+                        };
+                        IBatch::Chain { head: pos("chain_head", &ICHAIN_HEADS)?, k: jusize(o, "k")?, tail: pos("chain_tail", &ICHAIN_TAILS)? }
+                    }
                     Some(o) if o.get("skip").is_some() => IBatch::Skip(jusize(o, "skip")?),
                     Some(o) if o.get("step_by").is_some() => IBatch::StepBy(jusize(o, "step_by")?.max(1)),
                     Some(o) if o.get("by_ref_take").is_some() => IBatch::ByRefTake(jusize(o, "by_ref_take")?),
